@@ -35,6 +35,20 @@ def run(run):
         asker_never_hangs(run, f, sp)
         receivers_die_with_actor(run, f, lc)
         ask_join(run, f, sp)
+        # "every ask ... returns an Err rather than ..." - a value, not a panic: the delivery functions cannot panic on their
+        # own (O12.7), and with deadlock-detection the one deliberate panic of ask is raised only for a real cycle (the C15
+        # soundness rules: edge <=> guard, guard owned across the awaits, destructor, panic condition)
+        from rules import sendrules
+        sendrules.delivery_never_panics(run, f, "O3.6")
+        if "deadlock-detection" in f.features:
+            import deadlock
+            from rules import c15
+            det = deadlock.get(f)
+            if det.body is not None and not det.errors:
+                c15.edge_iff_guard(run, f, det)
+                c15.guard_lives_across_awaits(run, f, det)
+                c15.destructor(run, f, det)
+                c15.panic_condition(run, f, det)
 
 
 def per_request_channel(run, f, sp):
